@@ -11,10 +11,10 @@ place where the Python raises — the range check on integer subscripts, `get_in
 unary minus, CasADi's assertions on slices and index lists, `ForLoop.__init__` on a non-literal start,
 `Function.map` with zero iterations — is an explicit `none`.
 
-The tree may or may not contain three checks (`Cfg`): a range check on slice bounds, a range check on the
-values a loop-dependent subscript takes, and the Modelica reading `start:step:stop` of three-part ranges.
-`Cfg.asIs` is the tree without them (the state in which the findings C23-F1..F3 were recorded),
-`Cfg.checked` is the tree after the proposed fixes C23-1 and C23-2.
+Three checks are switches of the model (`Cfg`): a range check on slice bounds, a range check on the values a
+loop-dependent subscript takes, and the Modelica reading `start:step:stop` of three-part ranges.
+`Cfg.checked` is the tree as it is now (since commits 4aad8e2 and b779a95, the fixes C23-2 and C23-1);
+`Cfg.asIs` is the tree before them, the state in which the findings C23-F1..F3 were recorded.
 -/
 namespace PymocaVerif.Index
 
@@ -149,21 +149,31 @@ inductive LoopRange where
   | three (a : IntS) (b c : NatS)    -- `for i in a:b:c` as written
   deriving Repr, DecidableEq
 
+/-- `e.start.value` / `e.step.value`: only an integer literal (`ast.Primary`) has `.value` -/
+def IntS.litVal : IntS → Option Nat
+  | .lit k => some k
+  | _ => none
+
+def NatS.litVal : NatS → Option Nat
+  | .lit k => some k
+  | _ => none
+
 /-- `ForLoop.__init__`: start and step are read with `.value` (integer literals only), the stop with
-    `get_integer`; the values are `arange(start, stop + step, step)`. -/
+    `get_integer`; the values are `arange(start, stop + 1, step)` — before commit 4aad8e2
+    `arange(start, stop + step, step)` with the second and third written number exchanged. -/
 def loopValues (cfg : Cfg) : LoopRange → Option (List Int)
   | .two a b =>
-    match a, b.eval with
-    | .lit k, some e => some (arange k (e + 1) 1)
+    match a.litVal, b.eval with
+    | some k, some e => some (arange k (e + 1) 1)
     | _, _ => none
   | .three a b c =>
     if cfg.stepOrder = true then
-      match a, b, c.eval with
-      | .lit k, .lit st, some e => if st = 0 then none else some (arange k ((e : Int) + 1) st)
+      match a.litVal, b.litVal, c.eval with
+      | some k, some st, some e => if st = 0 then none else some (arange k ((e : Int) + 1) st)
       | _, _, _ => none
     else
-      match a, b.eval, c with
-      | .lit k, some e, .lit st => if st = 0 then none else some (arange k ((e : Int) + st) st)
+      match a.litVal, b.eval, c.litVal with
+      | some k, some e, some st => if st = 0 then none else some (arange k ((e : Int) + st) st)
       | _, _, _ => none
 
 /-- A subscript `mul*i + off` (`mul ≠ 0`) over the loop values: `register_indexed_symbol` computes the index
@@ -322,5 +332,10 @@ def Safe (cfg : Cfg) : FSub → Prop
     loop check is present, else those that never go below 1. -/
 def LoopSafe (cfg : Cfg) (vals : List Int) (mul off : Int) : Prop :=
   cfg.loopCheck = true ∨ ∀ v ∈ vals, 1 ≤ mul * v + off
+
+/-- A subscript that must be rejected in a dimension of size `n`: ill-formed (step 0) or denoting an index
+    outside `1..n`. -/
+def Bad (n : Nat) (s : FSub) : Prop :=
+  s.denote n = none ∨ ∃ d, s.denote n = some d ∧ ∃ i ∈ d, i < 1 ∨ (n : Int) < i
 
 end PymocaVerif.Index
